@@ -22,6 +22,8 @@ Proof.
 Qed.
 Lemma dv_pieces_marker h i last L b : dv_pieces h i L b -> dv_delivered h i last b (L ++ [dv_marker h i last]).
 Proof. intros (ds & E & C & F). exists ds. rewrite E. split; [reflexivity|split; assumption]. Qed.
+Lemma dv_pieces_done h hc i last L b : dv_pieces h i L b -> dv_delivered_c h hc i last b (L ++ [dv_marker h i last; dv_done hc i]).
+Proof. intros (ds & E & C & F). exists ds. rewrite E. split; [reflexivity|split; assumption]. Qed.
 
 Lemma dv_firstn_add {A} (l : list A) a b : firstn (a + b) l = firstn a l ++ firstn b (skipn a l).
 Proof.
@@ -55,7 +57,7 @@ Proof.
   rewrite Edd in Est. rewrite skipn_length in Est.
   assert (Es : c_in_state c = REQ_BODY_IDENTITY) by apply (ci_state _ _ _ _ _ _ _ _ _ H).
   assert (Ef : rq_state_fn cb g (c_in_state c) c = REQ_BODY_IDENTITY_fn cb c) by (rewrite Es; reflexivity).
-  assert (Rk : dv_rok c) by (eapply dv_cin_rok; [exact H|discriminate]).
+  assert (Rk : dv_rok c) by (eapply dv_cin_rok; [exact H|apply dv_neqN]).
   assert (Fin : forall r c1, rq_state_fn cb g (c_in_state c) c = (r, c1) -> dv_rok c1 -> dv_rb c' = dv_rb c1).
   { intros r c1 E1 R1. destruct Hit as [Ei|(rc & Ei)].
     - apply (dv_iter_after_inr cb g Hcb c r c1 c' E1 Ei R1).
@@ -71,7 +73,7 @@ Lemma dv_request_complete_body c d rd p prev t : sg_cin c d rd p None REQ_FINALI
   tx_req_has_body t = true -> (t_request_progress t =? c_HTP_REQUEST_COMPLETE)%Z = false ->
   (t_response_progress t =? c_HTP_RESPONSE_COMPLETE)%Z = false -> t_is_protocol_0_9 t = false -> t_hook_request_body t = 0%nat ->
   exists c', rq_request_complete cb g c = (ST_OK, c') /\ sg_idl c' d rd p (w_done w ++ [Some (sg_tcomplete t)]) (w_flags w) prev /\
-             dv_rb c' = dv_marker H_REQUEST_BODY_DATA (length (w_done w)) true :: dv_rb c.
+             dv_rb c' = dv_done H_REQUEST_COMPLETE (length (w_done w)) :: dv_marker H_REQUEST_BODY_DATA (length (w_done w)) true :: dv_rb c.
 Proof.
   intros H Htc Hprog Hresp H09 Hh. pose proof (sg_cin_slot _ _ _ _ _ _ _ _ _ H) as Hsl. pose proof H as [A1 A2 A3 A4 A5 A6 A7 A8 A9 A10 A11 A12 A13 A14 A15 A16 A17].
   unfold rq_request_complete, rq_with_tx. rewrite A13.
@@ -93,7 +95,7 @@ Proof.
   set (t' := t1 <| t_request_progress := c_HTP_REQUEST_COMPLETE |>).
   match goal with |- context [wr_hook_ev H_REQUEST_COMPLETE ?i None false ?x] => set (c4 := wr_hook_ev H_REQUEST_COMPLETE i None false x) end.
   assert (H4 : sg_cin c4 d rd p None REQ_FINALIZE prev None t') by (unfold c4; apply sg_cin_hook; eapply sg_cin_txs; exact H3).
-  assert (V4 : dv_rb c4 = dv_rb c3) by reflexivity.
+  assert (V4 : dv_rb c4 = dv_done H_REQUEST_COMPLETE (length (w_done w)) :: dv_rb c3) by reflexivity.
   rewrite (ci_rh _ _ _ _ _ _ _ _ _ H4).
   rewrite (sg_cin_slot _ _ _ _ _ _ _ _ _ H4). change (t_is_protocol_0_9 t') with (t_is_protocol_0_9 t). rewrite H09.
   unfold tx_finalize.
@@ -102,14 +104,14 @@ Proof.
   unfold tx_is_complete. change (t_response_progress t') with (t_response_progress t). rewrite Hresp, andb_false_r. cbn [negb].
   eexists. split; [reflexivity|]. split.
   - apply sg_idl_of_cin. exact H5.
-  - change (dv_rb c4 = dv_marker H_REQUEST_BODY_DATA (length (w_done w)) true :: dv_rb c). rewrite V4. exact V3.
+  - change (dv_rb c4 = dv_done H_REQUEST_COMPLETE (length (w_done w)) :: dv_marker H_REQUEST_BODY_DATA (length (w_done w)) true :: dv_rb c). rewrite V4, V3. reflexivity.
 Qed.
 
 Lemma dv_pass_finalize_body c d p t : sg_cin c d (length d) p None REQ_FINALIZE (Some REQ_FINALIZE) None t ->
   tx_req_has_body t = true -> (t_request_progress t =? c_HTP_REQUEST_COMPLETE)%Z = false ->
   (t_response_progress t =? c_HTP_RESPONSE_COMPLETE)%Z = false -> t_is_protocol_0_9 t = false -> t_hook_request_body t = 0%nat ->
   exists c', rq_iter cb g false c = inr c' /\ sg_idl c' d (length d) p (w_done w ++ [Some (sg_tcomplete t)]) (w_flags w) (Some REQ_IDLE) /\
-             dv_rb c' = dv_marker H_REQUEST_BODY_DATA (length (w_done w)) true :: dv_rb c.
+             dv_rb c' = dv_done H_REQUEST_COMPLETE (length (w_done w)) :: dv_marker H_REQUEST_BODY_DATA (length (w_done w)) true :: dv_rb c.
 Proof.
   intros H Htc Hprog Hresp H09 Hh. pose proof H as [A1 A2 A3 A4 A5 A6 A7 A8 A9 A10 A11 A12 A13 A14 A15 A16 A17].
   assert (Ef : rq_state_fn cb g (c_in_state c) c = rq_request_complete cb g (rq_set_in (fun k => k <| k_next_byte := None |>) c)).
@@ -119,7 +121,7 @@ Proof.
   rewrite <- Ef in E1.
   destruct (sg_iter_idle cb g c c1 d _ p _ _ _ E1 H1) as (c' & E & H').
   exists c'. split; [exact E|]. split; [exact H'|].
-  assert (R1 : dv_rok c1) by (unfold dv_rok; rewrite (il_rh _ _ _ _ _ _ _ H1); discriminate).
+  assert (R1 : dv_rok c1) by (unfold dv_rok; rewrite (il_rh _ _ _ _ _ _ _ H1); intros h' E'; discriminate E').
   rewrite (proj1 (dv_iter_after_inr cb g Hcb c _ c1 c' E1 E R1)). exact V1.
 Qed.
 End BodyE.
@@ -144,10 +146,11 @@ Variable hlog : option bytes -> tx -> bytes -> bytes -> Prop.
 Notation sg_cin := (sg_cinw sg_w0).
 Notation sg_mid := (sg_midw sg_w0).
 Notation RB := H_REQUEST_BODY_DATA.
+Notation RC := H_REQUEST_COMPLETE.
 
 (* at the end: the transaction of PSegBody, and the delivery *)
 Definition dv_bfin (L : list event) (txs : list (option tx)) : Prop :=
-  sg_bfin g m u pr fs body txs /\ dv_delivered RB 0 true body L.
+  sg_bfin g m u pr fs body txs /\ dv_delivered_c RB RC 0 true body L.
 (* between two calls while the body is read: k bytes delivered so far, in the data events L *)
 Definition dv_bext (L : list event) (c : connp) (rw : bytes) : Prop :=
   exists fl k, (k < n)%nat /\ sg_mid c [] None REQ_BODY_IDENTITY None (sg_body_add' k (sg_tb1 g m u pr fs fl)) /\
@@ -210,8 +213,8 @@ Proof.
       change (dv_rb (c6 <| c_in_status := c_HTP_STREAM_DATA |>)) with (dv_rb c6). rewrite V6, Ev. cbn [w_done sg_w0 length rev app]. split.
       * exists fl. change (c_txs (c6 <| c_in_status := c_HTP_STREAM_DATA |>)) with (c_txs c6). rewrite (il_txs _ _ _ _ _ _ _ H6). cbn [w_done sg_w0 app].
         unfold sg_after_hdr. fold n. destruct n as [|n0] eqn:En; [lia|]. reflexivity.
-      * change (L ++ [dv_data RB 0 (skipn rd d); dv_marker RB 0 true]) with (L ++ [dv_data RB 0 (skipn rd d)] ++ [dv_marker RB 0 true]). rewrite app_assoc.
-        apply dv_pieces_marker. unfold n in HL'. rewrite firstn_all in HL'. exact HL'.
+      * change (L ++ [dv_data RB 0 (skipn rd d); dv_marker RB 0 true; dv_done RC 0]) with (L ++ [dv_data RB 0 (skipn rd d)] ++ [dv_marker RB 0 true; dv_done RC 0]). rewrite app_assoc.
+        apply dv_pieces_done. unfold n in HL'. rewrite firstn_all in HL'. exact HL'.
 Qed.
 
 (* ---- a later call that starts in REQ_BODY_IDENTITY ---- *)
@@ -269,17 +272,17 @@ Proof.
     eexists _, _. split; [reflexivity|]. right. split; [exact Hrw|].
     change (dv_rb (c6 <| c_in_status := c_HTP_STREAM_DATA |>)) with (dv_rb c6). rewrite V6, Ev5. cbn [w_done sg_w0 length rev app]. split.
     + exists fl. change (c_txs (c6 <| c_in_status := c_HTP_STREAM_DATA |>)) with (c_txs c6). rewrite (il_txs _ _ _ _ _ _ _ H6). fold n. rewrite En. reflexivity.
-    + rewrite Eb. apply (dv_pieces_marker RB 0 true [] []). apply dv_pieces_nil.
+    + rewrite Eb. apply (dv_pieces_done RB RC 0 true [] []). apply dv_pieces_nil.
   - destruct H5' as [H5' L5]. rewrite <- En in *.
     apply (dv_body_run c5 d rd1 fl 0 rw' f [] H5'); [rewrite L5; f_equal; lia|lia|cbn [skipn]; exact Hw|exact Ev5|cbn [firstn]; apply dv_pieces_nil].
 Qed.
 End BodyRunE.
 
 (* ================= the theorem on the wire grammar, with a Content-Length body ================= *)
-Theorem dv_request_body_delivery : forall cb g r (cuts : list (list bytes)) (body : bytes) (chunks : list bytes),
+Theorem dv_request_body_delivery_c : forall cb g r (cuts : list (list bytes)) (body : bytes) (chunks : list bytes),
   wr_all_ok cb -> g_allow_space_uri g = false -> sg_body_ok g r body = true -> sg_cuts_ok r cuts = true -> sg_fold_fits g r cuts = true ->
   Forall (fun x => x <> []) chunks -> concat chunks = sg_fold_wire r cuts ++ body ->
-  dv_delivered H_REQUEST_BODY_DATA 0 true body (dv_sel H_REQUEST_BODY_DATA (dv_log cb g (OpOpen :: map OpReqData chunks))).
+  dv_delivered_c H_REQUEST_BODY_DATA H_REQUEST_COMPLETE 0 true body (dv_selp dv_rq_hook (dv_log cb g (OpOpen :: map OpReqData chunks))).
 Proof.
   intros cb g [m u p fs] cuts body chunks Hcb Hsp Wr Hcuts Hf Hall Hc.
   unfold sg_body_ok in Wr. cbn [wq_method wq_uri wq_protocol wq_fields] in Wr. cbv zeta in Wr.
@@ -306,6 +309,22 @@ Proof.
               (dv_fcall_hdrs cb g Hcb m u p bwt body Tend _ _ (dv_btail cb g Hcb Hsp m u p fs body Wl Wc Hco Hcl bwt (sg_fhlog g Tend body)))
               chunks Hall Hc') as [_ D].
   exact D.
+Qed.
+
+(* the REQUEST_BODY_DATA events alone; the marker precedes the one REQUEST_COMPLETE event *)
+Theorem dv_request_body_delivery : forall cb g r (cuts : list (list bytes)) (body : bytes) (chunks : list bytes),
+  wr_all_ok cb -> g_allow_space_uri g = false -> sg_body_ok g r body = true -> sg_cuts_ok r cuts = true -> sg_fold_fits g r cuts = true ->
+  Forall (fun x => x <> []) chunks -> concat chunks = sg_fold_wire r cuts ++ body ->
+  let log := dv_log cb g (OpOpen :: map OpReqData chunks) in
+  dv_delivered H_REQUEST_BODY_DATA 0 true body (dv_sel H_REQUEST_BODY_DATA log) /\
+  dv_sel H_REQUEST_COMPLETE log = [dv_done H_REQUEST_COMPLETE 0] /\
+  bd_marker_ok H_REQUEST_BODY_DATA H_REQUEST_COMPLETE (dv_selp dv_rq_hook log) false = true.
+Proof.
+  intros cb g r cuts body chunks Hcb Hsp Wr C1 F1 A1 E1 log.
+  pose proof (dv_request_body_delivery_c cb g r cuts body chunks Hcb Hsp Wr C1 F1 A1 E1) as D. fold log in D.
+  destruct (dv_delivered_c_sel H_REQUEST_BODY_DATA H_REQUEST_COMPLETE 0 true body _ ltac:(discriminate) D) as (D1 & D2 & D3).
+  rewrite (dv_sel_selp dv_rq_hook H_REQUEST_BODY_DATA log eq_refl) in D1. rewrite (dv_sel_selp dv_rq_hook H_REQUEST_COMPLETE log eq_refl) in D2.
+  split; [exact D1|]. split; [exact D2|exact D3].
 Qed.
 
 (* the length fields of the reported transaction (PSegBody.sg_request_body_chunking) in absolute terms *)
@@ -384,9 +403,11 @@ Example dv_ex_cl_cuts :
 Proof. split; [vm_compute; reflexivity|]. split; [vm_compute; reflexivity|]. split; vm_compute; reflexivity. Qed.
 
 (* ================= THEOREMS FOR RE-EXPORT (Properties_C06.v), request direction, Content-Length body =================
-   dv_request_body_delivery          dv_delivered H_REQUEST_BODY_DATA 0 true body (REQUEST_BODY_DATA events of the whole run)
+   dv_request_body_delivery_c        dv_delivered_c: the REQUEST_BODY_DATA and REQUEST_COMPLETE events of the whole run = data* ++ [marker; REQUEST_COMPLETE]
+   dv_request_body_delivery          dv_delivered H_REQUEST_BODY_DATA 0 true body (REQUEST_BODY_DATA events of the whole run), one REQUEST_COMPLETE, marker before it
    dv_request_body_delivery_counted  + the final transaction list is [Some t] with request_entity_len = request_message_len = |body|, COMPLETE
    premises (those of PSegBody.sg_request_body_chunking): wr_all_ok cb, g_allow_space_uri g = false, sg_body_ok g r body = true,
      sg_cuts_ok r cuts = true, sg_fold_fits g r cuts = true, Forall (fun x => x <> []) chunks, concat chunks = sg_fold_wire r cuts ++ body *)
+Print Assumptions dv_request_body_delivery_c.
 Print Assumptions dv_request_body_delivery.
 Print Assumptions dv_request_body_delivery_counted.
